@@ -9,7 +9,7 @@ import mkmanifest, mkdesign_tables
 MODELS = {
     "C01": ("Model/Hap.v, Model/Spec.v, Model/Sessions.v (the session table and its key); Proofs/HapProofs.v, SessionsProofs.v", "stack (incl. the shared-address runs NS / NSI) + sess"), "C02": ("Model/Hap.v; Proofs/HapProofs.v", "stack"),
     "C03": ("Model/Hap.v; Proofs/HapProofs.v", "stack"), "C04": ("Model/Hap.v, Model/Spec.v, Model/Framing.v, Model/Srp.v; Proofs/HapProofs.v, SpecProofs.v, FramingProofs.v, SrpProofs.v (and SrpFast.v for the evaluation of the SRP model)", "stack + srp + config"),
-    "C05": ("Model/Framing.v, Model/ConnRead.v, Model/Pipeline.v (requests buffered across the switch to the secure session), Model/PlainFrame.v (where a plain text message ends: plainHeaderEnd / plainMessageBytes byte for byte), Base/ChaCha20Poly1305 + HKDF-SHA-512; Proofs/FramingProofs.v, ConnAdvProofs.v, PipelineProofs.v, PlainFrameProofs.v, Base/ChaChaPolyProofs.v", "frame + conn + stack (VR, INJ) + plain"),
+    "C05": ("Model/Framing.v, Model/ConnRead.v, Model/Pipeline.v (requests buffered across the switch to the secure session), Model/PlainFrame.v (where a plain text message ends: plainHeaderEnd / plainMessageBytes byte for byte), Model/PlainRead.v (the plain text phase of Connection.Read with the HTTP layer above it, up to the switch to the secure session), Base/ChaCha20Poly1305 + HKDF-SHA-512; Proofs/FramingProofs.v, ConnAdvProofs.v, PipelineProofs.v, PlainFrameProofs.v, PlainReadProofs.v, Base/ChaChaPolyProofs.v", "frame + conn + stack (VR, INJ) + plain"),
     "C06": ("Model/Framing.v; Proofs/FramingProofs.v", "frame"), "C07": ("Model/ConnRead.v; Proofs/ConnReadProofs.v", "conn"),
     "C08": ("Model/ConnWrite.v; Proofs/ConnWriteProofs.v", "connw"), "C09": ("Model/Hap.v (do_get / do_put), Model/Charac.v, Model/Respond.v; Proofs/HapProofs.v, RespondProofs.v", "stack + connw (resp)"),
     "C10": ("Model/Hap.v (notify, subscriptions), Model/Update.v (several writers of one value); Proofs/HapProofs.v, UpdateProofs.v", "stack (incl. DUPW, LSPLIT)"), "C11": ("Model/Charac.v, Model/Hap.v; Proofs/CharacProofs.v, HapProofs.v", "charac + stack"),
